@@ -96,7 +96,7 @@ func newInstDup(name string, o instOpts, dupUp, dupSet bool) (*inst, error) {
 	for tag, scheme := range o.upstreams {
 		u := newFakeUp(tag, func() *vtrace.T { return in.tr })
 		in.ups[tag] = u
-		cfg.Upstreams = append(cfg.Upstreams, router.UpstreamConfig{Tag: tag, Addr: scheme + "://" + u.addr})
+		cfg.Upstreams = append(cfg.Upstreams, router.UpstreamConfig{Tag: tag, Addr: u.url(scheme)})
 	}
 	setsJS := map[string][]string{}
 	for tag, lines := range o.sets {
